@@ -47,7 +47,7 @@ def split_executions(log):
 
 
 def conform(ctx, label, executions, run_harness, trace_module, trace_cfg, predict_cfg=None, key_fn=None,
-            max_report=3, tlc_timeout=900, env=None, heap="4g", crash_is_violation=True, meta=None, end_op=None):
+            max_report=3, tlc_timeout=900, env=None, heap="4g", crash_is_violation=True, meta=None, end_op=None, _depth=0):
     """run_harness(script_path, log_path) -> (rc, output, timed_out).
     Returns number of executions validated. Divergences are reported through ctx.diverge."""
     tag = re.sub(r"\W+", "_", label)
@@ -82,20 +82,30 @@ def conform(ctx, label, executions, run_harness, trace_module, trace_cfg, predic
         if not crash_is_violation:
             raise Infra("%s: %s\n%s" % (label, why, out[-2000:]))
         ex = executions[k] if k < len(executions) else []
-        done = len(exs[-1][1])
+        done = len([e for e in exs[-1][1] if e.get("op") != "crashed"])     # the harness's own crash marker is not a call
         key = key_fn("crash", ex, done, None) if key_fn else "crash"
         ctx.diverge(key, "%s: the code under test did not survive a behaviour the specification allows: %s (execution %d, after %d calls; next call: %s)"
                     % (label, why, k, done, ex[done] if (end_op is None and done < len(ex)) else "-"),
                     {"meta": meta, "label": label, "kind": "crash", "why": why, "script": ["\t".join(map(str, l)) for l in ex], "calls_completed": done,
                      "output_tail": out[-3000:], "trace_module": trace_module, "trace_cfg": trace_cfg})
-        # validate what was logged before the crash (drop the crashed execution)
+        # validate what was logged before the crash (drop the crashed execution) and run the executions behind it in a
+        # fresh harness process, so that one crash does not hide the rest
+        rest = executions[k + 1:]
         executions = executions[:k]
         log = log[:exs[-1][0] - 1] if k > 0 else []
+        extra = 0
+        if rest and _depth < 4:
+            extra = conform(ctx, label + "+", rest, run_harness, trace_module, trace_cfg, predict_cfg, key_fn, max_report, tlc_timeout, env, heap,
+                            crash_is_violation, meta, end_op, _depth + 1)
         if not executions:
-            return 0
+            return extra
+        validated_extra = extra
+    else:
+        validated_extra = 0
     validated = 0
     offset = 0   # executions[offset:] correspond to log
     reports = 0
+    rounds = 0
     while log:
         with open(logp, "w") as f:
             for e in log:
@@ -143,12 +153,14 @@ def conform(ctx, label, executions, run_harness, trace_module, trace_cfg, predic
                                          "log": lines[:rel + 1], "failing_call": rel + 1, "observed": observed, "predicted": predicted,
                                          "trace_module": trace_module, "trace_cfg": trace_cfg, "violated_invariant": r.violated})
         validated += k
-        reports += 1
+        rounds += 1
+        if is_new:
+            reports += 1     # listed known findings do not use up the budget of reported divergences
         # continue with the executions after the rejected one
         nxt = exs[k + 1][0] if k + 1 < len(exs) else None
-        if nxt is None or reports >= max_report:
+        if nxt is None or reports >= max_report or rounds >= 12:
             break
         log = log[nxt:]
         offset += k + 1
     ctx.traces += validated
-    return validated
+    return validated + validated_extra
